@@ -110,7 +110,8 @@ func c08Alphabet(thorough bool) []c08Op {
 		}
 	}
 	ops = append(ops, c08Op{Kind: "part", U: "u3", N: 1, Data: "A"})
-	for _, rg := range []string{"", "bytes=0-0", "bytes=1-", "bytes=0-99999", "garbage", "bytes=2-9"} {
+	// source is 20 bytes: last byte 19 is the largest valid end; an end equal to the size is beyond the object
+	for _, rg := range []string{"", "bytes=0-0", "bytes=1-", "bytes=0-99999", "garbage", "bytes=2-9", "bytes=0-19", "bytes=0-20", "bytes=12-20"} {
 		ops = append(ops, c08Op{Kind: "partcopy", U: "u1", N: 2, Range: rg})
 	}
 	for _, spec := range []string{"1", "1,2", "2,1", "1,1", "2", "1!", "1,3", "3"} {
@@ -200,6 +201,8 @@ func (c *c08Runner) apply(m *c08Model, o c08Op) string {
 			want = c08Src[1:]
 		case "bytes=2-9":
 			want = c08Src[2:10]
+		case "bytes=0-19":
+			want = c08Src
 		default:
 			ok = false // beyond the end / garbage: refused
 		}
@@ -485,7 +488,7 @@ func C08(r *ck.Run) {
 	if r.Thorough() {
 		depth = 4
 	}
-	r.Rule(fmt.Sprintf("breadth-first search over every program of length <= %d of 30 operations — uploadPart (2 uploads of the same key + 1 of another key, part numbers 1-2, 10-byte / 12-byte / 3-byte bodies, re-uploads included), uploadPartCopy with 6 source ranges, complete with 8 part specifications (valid, reordered, repeated, missing, wrong ETag, too-small non-last part), abort — on a real posix backend (minimum part size shrunk to 8 bytes by the overlay), states deduplicated on the reference multipart model; after EVERY step a second backend instance checks GET of both keys (bytes, multipart ETag, initiation metadata), ListObjectsV2, ListParts of every upload (max-parts 1000 and 1) and ListMultipartUploads (max-uploads 1000 and 1, markers followed); distinct = distinct state", depth))
+	r.Rule(fmt.Sprintf("breadth-first search over every program of length <= %d of 33 (thorough 35) operations — uploadPart (2 uploads of the same key + 1 of another key, part numbers 1-2, 10-byte / 12-byte / 3-byte bodies, re-uploads included), uploadPartCopy with 9 source ranges (whole, sub-ranges, last byte, end equal to and beyond the source size, garbage), complete with 8 part specifications (valid, reordered, repeated, missing, wrong ETag, too-small non-last part), abort — on a real posix backend (minimum part size shrunk to 8 bytes by the overlay), states deduplicated on the reference multipart model; after EVERY step a second backend instance checks GET of both keys (bytes, multipart ETag, initiation metadata), ListObjectsV2, ListParts of every upload (max-parts 1000 and 1) and ListMultipartUploads (max-uploads 1000 and 1, markers followed); distinct = distinct state", depth))
 	r.Assume("backend.MinPartSize is 8 bytes in this build (overlay constant), everything else is the real code; upload listings are compared as sets plus pagination completeness")
 	cfgs := []pxCfg{{}}
 	if r.Thorough() {
